@@ -110,6 +110,8 @@ def selection_loops(fn, P=None, cls=None):
             sel = _inline_selector(P, cls, it)
             if sel is not None:
                 it = sel
+        # is the selection materialised before the loop runs (list / comprehension / copy), or produced lazily while the loop body runs?
+        lazy = isinstance(it, ast.GeneratorExp) or is_self_attr(it) or (isinstance(it, ast.Call) and isinstance(it.func, ast.Name) and it.func.id in ('filter', 'iter', 'reversed', 'map'))
         sources = None
         if isinstance(it, (ast.ListComp, ast.GeneratorExp)) and len(it.generators) == 1:
             gen = it.generators[0]
@@ -138,7 +140,7 @@ def selection_loops(fn, P=None, cls=None):
                 else:
                     actions.append((s, rn(s, {v: 'E_'})))
         flat(loop.body)
-        out.append({'loop': loop, 'sources': sources, 'preds': preds, 'actions': actions, 'iter_name': loop.iter.id if isinstance(loop.iter, ast.Name) else None})
+        out.append({'loop': loop, 'sources': sources, 'preds': preds, 'actions': actions, 'iter_name': loop.iter.id if isinstance(loop.iter, ast.Name) else None, 'lazy': lazy})
     # a loop whose only effect is `<local list>.append(<element>)` builds a selection: the loop over that local inherits its
     # sources and predicates (for + if + append is the spelled-out form of the comprehension)
     empties = {t.id for n in ast.walk(fn) if isinstance(n, ast.Assign) and isinstance(n.value, ast.List) and not n.value.elts for t in n.targets if isinstance(t, ast.Name)}
@@ -256,6 +258,13 @@ def check(ctx):
                    f'events must be selected by `event.asset_id == {param}` and nothing else; found {l["preds"]}', file=Env.mod.path, line=l['loop'].lineno)
         else:
             o.witness('predicate')
+        # a loop that adds to / removes from a list it is lazily iterating skips elements
+        o.count()
+        if l.get('lazy') and l['sources']:
+            touched = [t for _, t in l['actions'] if any(t.startswith(f'self.{src}.') and t.split('.')[2].split('(')[0] in ('remove', 'pop', 'append', 'insert', 'clear') for src in l['sources'])]
+            if touched:
+                o.fail(P, f'Environment.{name}', l['loop'].iter, f'the selected events are produced lazily from {sorted(l["sources"])} while the loop body modifies that list ({touched[0]}): '
+                       'every second matching event is skipped', file=Env.mod.path, line=l['loop'].lineno)
         guard_conditions(P, ctx, Env, name, o, param)
         o.sample({'operation': name, 'selects_from': sorted(l['sources']), 'predicate': l['preds'], 'per_event_actions': [t for _, t in l['actions']],
                   'file': P.rel(Env.mod.path), 'line': l['loop'].lineno})
